@@ -238,6 +238,9 @@ def run(ck: Checker):
         ck.check(ts in (neg_types, pos_types), 'C03.UNARY', mu, node.test, 'a unary family test lists exactly the negation types or exactly the buffer types',
                  f'family {sorted(ts)} is neither {sorted(neg_types)} nor {sorted(pos_types)}', construct=f'unary family {sorted(ts)} at {mu.qualname_of(node)}')
     ck.floor('C03.UNARY', 10)
+    ck.rule('C18.IDEM', 'pipelines skip a pass only if it is idempotent and equal to the one just applied (shared with C18): a requested input removal is never dropped')
+    from .C18 import idem_rules
+    idem_rules(ck)
     ck.assume('parity bookkeeping of MergeUnaryOperators and representative choice of MergeEquivalentGates are not decided (truth-table equality itself)')
     ck.assume('dfs hooks fire once per reachable gate in post-order (C20)')
 
